@@ -241,4 +241,19 @@ void dump_detout(int iface, DetectorStepOutput const& o)
     }
 }
 
+// HitProcessor-style consumer: `copy_steps(&steps_, state); if (steps_) score(steps_)`
+// on an output object that is REUSED across iterations; prints what gets scored
+void score_hits(int iface, DetectorStepOutput const& o)
+{
+    if (!o)
+        return;
+    out << "HITS " << g_iter << ' ' << iface;
+    for (auto i : range(o.size()))
+    {
+        out << ' ' << idv(o.detector[i]) << ' '
+            << (i < o.track_id.size() ? idv(o.track_id[i]) : -2);
+    }
+    out << '\n';
+}
+
 }  // namespace
